@@ -331,6 +331,13 @@ func newSession(cfg runCfg) (*session, error) {
 			panic("boom (host builtin panic requested by the test program)")
 		}},
 		&hostFn{"capture", lisp.Formals(), s.capture})
+	// the same Go panic from a host macro and from a host special operator
+	env.AddMacros(true, &hostFn{"boom-macro", lisp.Formals(lisp.VarArgSymbol, "xs"), func(*lisp.LEnv, *lisp.LVal) *lisp.LVal {
+		panic("boom (host macro panic requested by the test program)")
+	}})
+	env.AddSpecialOps(true, &hostFn{"boom-op", lisp.Formals(lisp.VarArgSymbol, "xs"), func(*lisp.LEnv, *lisp.LVal) *lisp.LVal {
+		panic("boom (host special operator panic requested by the test program)")
+	}})
 	if rc := env.InPackage(lisp.String(lisp.DefaultUserPackage)); rc.Type == lisp.LError {
 		return nil, fmt.Errorf("in-package: %v", rc)
 	}
